@@ -404,6 +404,11 @@ func (vt *Model) el(ps int) {
 	// cursor position. Line attribute is not affected.
 	case 1:
 		for col := column(0); col <= vt.cursor.col; col += 1 {
+			if col >= column(vt.width()) {
+				// The cursor is past the last column after a
+				// deferred wrap
+				break
+			}
 			vt.activeScreen[r][col].erase(vt.cursor.Style.Background)
 		}
 
@@ -650,7 +655,7 @@ func (vt *Model) rep(ps int) {
 	}
 	ch := vt.activeScreen[vt.cursor.row][col-1]
 	for i := 0; i < ps; i += 1 {
-		if col+column(i) == vt.margin.right {
+		if col+column(i) >= vt.margin.right {
 			return
 		}
 		vt.activeScreen[vt.cursor.row][vt.cursor.col+column(i)].Character = ch.Character
